@@ -66,6 +66,13 @@ def scalars(tier):
         S("float", call(2.5), ("precision", 1), ("min", 2.5)),
         S("int", call(1)), S("int", call(False)),
         S("float", ("min", 2.5), ("max", 1.5)),
+        # an interval of a single value / of two adjacent floats, without precision (non-dyadic
+        # end points: interpolating between them in floating point can step outside)
+        S("float", ("min", 123.456), ("max", 123.456)), S("float", ("min", 0.1), ("max", 0.1)),
+        S("float", ("min", -58.3), ("max", -58.3)),
+        S("float", ("min", 0.3), ("max", 0.30000000000000004)),
+        S("float", ("min", 1e308), ("max", 1.7976931348623157e308)),
+        S("float", ("min", -1e308), ("max", 1e308)),
     ]
     # bounds one ulp off a grid point (the float product bound * 10**p then rounds onto the grid)
     for g, p in ((1.7, 1), (0.8, 2), (0.3, 1), (2.675, 3)):
